@@ -5,8 +5,10 @@ PROPS = {
     'C01': dict(
         rules=[geo.geo_curv, geo.parity, kernel.row_rec, kernel.sib_grav, kernel.ker_consist,
                kernel.ker_skew,
-               incr.cs_rules, incr.cs_exact, rot.rot_series, rot.rot_exp],
+               incr.cs_rules, incr.cs_exact, rot.rot_series, rot.rot_exp, geo.wgs_const],
         decided=['compiled gravity copy equals earth.gravity',
+                 'the constants behind the symbols (WGS-84 values, gravity at equator and poles, '
+                 'degree/radian factors)',
                  'one-step map first-order consistent with the navigation equations built '
                  'from earth.* / perturb_lla / skew_matrix (necessary for convergence)',
                  'cross-product structure of the Coriolis and rotation-compensation terms',
@@ -28,7 +30,8 @@ PROPS = {
                  'the first-order-rotation velocity integral (derived by polynomial integration)'],
         undecided=['order of accuracy on general (sinusoidal) signals (a limit statement)']),
     'C17': dict(
-        rules=[rot.rot_series, rot.rot_exp, rot.euler_inv, rot.euler_conv, errmodel.es_first],
+        rules=[rot.rot_series, rot.rot_exp, rot.euler_inv, rot.euler_conv, errmodel.es_first,
+               geo.unit_const],
         decided=['small-angle arm is the Maclaurin truncation of the closed form and continuous '
                  'across the branch to 2^-53',
                  'rotation-vector routine is the exponential map (Rodrigues coefficients as '
@@ -156,7 +159,7 @@ PROPS = {
         assumptions=['pandas >= 3 copy-on-write semantics (measured in this sandbox); calls '
                      'listed under assumed_read_only_calls do not write their arguments']),
     'C18': dict(
-        rules=[diff.diff_orient, diff.diff_sym, diff.wrap_rules, diff.res_rules],
+        rules=[diff.diff_orient, diff.diff_sym, diff.wrap_rules, diff.res_rules, geo.unit_const],
         decided=['difference is +first -second on every path, whichever input is denser',
                  'angle reduction maps every real angle into (-180, 180] congruent mod 360 '
                  '(interval proof, array and scalar arms)',
@@ -179,7 +182,7 @@ PROPS = {
         undecided=['empirical variances of simulated noise', 'numerical inverse property']),
     'C11': dict(
         rules=[layout.layout_state, layout.layout_noise, layout.layout_prov, layout.p0_form,
-               layout.rec_order, kal.q_psd,
+               layout.rec_order, kal.q_psd, geo.unit_const,
                lambda c: sched.sched_epochs(c, (sched.FF,)),
                lambda c: sched.sched_mcursor(c, (sched.FF,)),
                lambda c: sched.sched_no_overtake(c, (sched.FF,)),
@@ -219,7 +222,7 @@ PROPS = {
                    'second-order agreement with the feedforward filter']),
     'C16': dict(
         rules=[kernel.sib_grav, geo.geo_frame, geo.geo_perturb, geo.geo_curv, geo.parity,
-               geo.role_radii, geo.parity_ecef, geo.olson_rules,
+               geo.role_radii, geo.parity_ecef, geo.olson_rules, geo.wgs_const,
                lambda c: forms.form_agree(c, ('earth', 'transform')),
                lambda c: dtype.dtype_inherit(c, ('transform', 'earth'))],
         decided=['NED axes of mat_en_from_ll are the partial derivatives of lla_to_ecef with '
@@ -228,6 +231,8 @@ PROPS = {
                  'first order', 'curvature matrix = rotation of the NED frame under displacement',
                  'rate_n, gravity_n, gravitation_ecef (gravity minus centrifugal) and the compiled '
                  'gravity copy are one field', 'even/odd symmetry in latitude',
+                 'the constants behind the symbols: WGS-84 values of A, E2, GE, GP, RATE, normal '
+                 'gravity equal to GE / GP at the equator / poles, DEG_TO_RAD == pi/180',
                  'ECEF -> geodetic conversion is mirror-symmetric in z (latitude odd, longitude and '
                  'altitude even)',
                  'ECEF -> geodetic conversion inverts lla_to_ecef up to O(E2^6): closed-form guess '
@@ -240,7 +245,8 @@ PROPS = {
                    'are decided: FORM-AGREE)']),
     'C05': dict(
         rules=[rot.euler_inv, errmodel.es_inv, errmodel.es_first, errmodel.es_perturb,
-               integrator.es_copy, integrator.es_2drows, geo.geo_perturb, geo.role_radii],
+               integrator.es_copy, integrator.es_2drows, geo.geo_perturb, geo.role_radii,
+               geo.unit_const],
         decided=['output->internal is a left inverse of internal->output by construction (same '
                  'builder, inv, S E = I_7)',
                  'a correction changes the state, to first order, by exactly -T_out x in output '
@@ -306,5 +312,14 @@ def run(ctx):
             if deferred is None:
                 deferred = e
             ctx.info('ANALYSIS', 'rule not applicable to this code: %s' % e)
+    from . import expr as _expr
+    if 'pyins.util.to_180_range' in _expr.SUMMARY_USED and not any(r['rule'] == 'WRAP-RANGE' for r in ctx.rules_run):
+        # a symbolic rule used util.to_180_range through its summary (congruent modulo 360,
+        # identity near 0): the rules that establish the summary join this property's run
+        from .rules import diff as _diff
+        try:
+            _diff.wrap_rules(ctx)
+        except AnalysisError as e:
+            deferred = deferred or e
     if deferred is not None and not ctx.findings:
         raise deferred
